@@ -1627,9 +1627,11 @@ def sp_least_squares(fun, x0, bounds=None, **kw):
     rt = res.t if isinstance(res, (Lane, Sym)) else to_term(res)
     lo, hi = (bounds if bounds is not None else (Sym(ir.NINF), Sym(ir.INF)))
     c.assume(ir.and_(ir.le(to_term(lo), x), ir.le(x, to_term(hi))))
-    c.assume(ir.eq(rt, 0))
+    # ENSURES residual(x) == 0 is handed to the contract through the event (kept out of the path condition: nothing
+    # downstream in the library branches on it, and a non-linear equation over an uninterpreted integral makes
+    # every later satisfiability query hard)
     c.event('libcall', ('least_squares', [to_term(x0), to_term(lo), to_term(hi)]), State.where)
-    c.event('least_squares', {'x': x, 'residual': rt, 'x0': to_term(x0)}, State.where)
+    c.event('least_squares', {'x': x, 'residual': rt, 'x0': to_term(x0), 'ensures': ir.eq(rt, 0)}, State.where)
     return Opaque('lsq_result', x=Lane(x, 1))
 
 
@@ -1639,3 +1641,124 @@ SCIPY_INTEGRATE = Stub('scipy.integrate', {'quad': sp_quad})
 EXTERNAL['scipy.stats'] = SCIPY_STATS
 EXTERNAL['scipy.integrate'] = SCIPY_INTEGRATE
 EXTERNAL['scipy']._table.update({'stats': SCIPY_STATS, 'integrate': SCIPY_INTEGRATE})
+
+
+# ------------------------------------------------------------------------------------------------
+# a few more numpy pieces used by select_copula
+# ------------------------------------------------------------------------------------------------
+
+def np_concatenate2(arrs, axis=0):
+    lanes = []
+    for a in arrs:
+        a = _num(a)
+        if isinstance(a, Lane):
+            lanes.append(a)
+        else:
+            raise Unsupported('np.concatenate of %r' % (a,))
+    w = ir.uf('concat', [x.whole() for x in lanes], 'U')
+    n = Sym(ir.uf('len', [w], 'I'))
+    return Lane(ir.uf('elem', [w, values.IDX]), n)
+
+
+NP._table['concatenate'] = np_concatenate2
+
+
+@model('np.argmax/argmin', 'np.argmax(a) / np.argmin(a): an index i with 0 <= i < len(a) attaining the extremum '
+       '(first one on ties); deterministic in a')
+def np_argmax(a, axis=None):
+    return _argext('argmax', a)
+
+
+def np_argmin(a, axis=None):
+    return _argext('argmin', a)
+
+
+def _argext(kind, a):
+    c = State.ctx
+    if isinstance(a, ConcArr):
+        items = a.data
+        k = len(items)
+        w = ir.uf('vec', [to_term(x) for x in items], 'U')
+        i = ir.uf('np.' + kind, [w], 'I')
+        c.assume(ir.and_(ir.ge(i, 0), ir.lt(i, k)))
+        for j, x in enumerate(items):
+            tj = to_term(x)
+            for j2, y in enumerate(items):
+                if j2 != j:
+                    cmp = ir.ge if kind == 'argmax' else ir.le
+                    c.assume(ir.implies(ir.eq(i, j), cmp(tj, to_term(y))))
+        return Sym(i)
+    a = _num(a)
+    if isinstance(a, Lane):
+        i = ir.uf('np.' + kind, [a.whole()], 'I')
+        c.assume(ir.and_(ir.ge(i, 0), ir.lt(i, to_term(a.length()))))
+        return Sym(i)
+    raise Unsupported('np.%s(%r)' % (kind, a))
+
+
+NP._table['argmax'] = np_argmax
+NP._table['argmin'] = np_argmin
+
+
+class SeriesVec(object):
+    """pd.Series over a concrete-length list of scalars (select_copula's score vectors)"""
+    def __init__(self, items):
+        self.items = list(items)
+
+    def sym_getattr(self, interp, name):
+        if name == 'rank':
+            def rank(ascending=True, **kw):
+                USED['pd.Series.rank'] = ('pandas Series.rank(ascending=...): a vector of the same length, deterministic '
+                                          'function of the values (average ranks)')
+                w = [to_term(x) for x in self.items]
+                return SeriesVec([Sym(ir.uf('rank', [ir.const(bool(ascending)), ir.const(j)] + w)) for j in range(len(w))])
+            return rank
+        if name in ('to_numpy', 'values'):
+            f = lambda *a, **k: ConcArr(list(self.items))
+            return f if name == 'to_numpy' else f()
+        raise Unsupported('pd.Series(list).' + name)
+
+    def sym_binop(self, interp, op, other, reflected):
+        if isinstance(other, SeriesVec) and len(other.items) == len(self.items) and op == 'Add':
+            return SeriesVec([a + b for a, b in zip(self.items, other.items)])
+        return NotImplemented
+
+    def sym_len(self, interp):
+        return len(self.items)
+
+
+def _pd_series(data=None, index=None, **kw):
+    from .interp import PyList
+    if isinstance(data, (list, tuple)) and all(isinstance(x, (Sym, int, float)) for x in data) and index is None:
+        return SeriesVec([(_num(x) if not isinstance(x, Sym) else x) for x in data])
+    from . import pdmodel
+    return pdmodel.make_series(data, index, **kw)
+
+
+def _pd_dataframe(*a, **k):
+    from . import pdmodel
+    return pdmodel.make_frame(*a, **k)
+
+
+class _PdType(TypeToken):
+    def __init__(self, name, pred, ctor):
+        TypeToken.__init__(self, name, pred)
+        self.ctor = ctor
+
+    def sym_call(self, interp, args, kwargs):
+        return self.ctor(*args, **kwargs)
+
+
+def _is_frame(x):
+    return _b.getattr(x, 'is_frame', False)
+
+
+def _is_series(x):
+    return _b.getattr(x, 'is_series', False) or isinstance(x, SeriesVec)
+
+
+PANDAS = Stub('pandas', {
+    'Series': _PdType('pd.Series', _is_series, _pd_series),
+    'DataFrame': _PdType('pd.DataFrame', _is_frame, _pd_dataframe),
+})
+EXTERNAL['pandas'] = PANDAS
